@@ -1,8 +1,9 @@
 import Datacake.Model.Rpc
+import Datacake.Model.Exchange
 import Driver.Util
 /- Domain `rpc`: frame layer (C12) and handler registry (C13). -/
 namespace Driver.RpcDom
-open Datacake.Rpc Driver
+open Datacake.Rpc Datacake.Exchange Driver
 
 inductive Ev where
   | add (n : Nat) (keys : List Nat) (inst : Nat)
@@ -94,7 +95,30 @@ def step (st : State) (toks : List String) : State × String :=
     | some _, some k =>
       (st, showCall (getHandler st.reg k) ++ "\t#spec " ++ showCall (registered st.evs k))
     | _, _ => (st, "bad-op")
-  | "rawframe" :: _seed :: _size :: _mut :: _cuts :: declared :: rest =>
+  | ["status-bytes", code, hm] =>
+    -- the frame a handler error travels in, byte for byte (`Exchange.archive`: the rkyv layout of `Status`), and what the client
+    -- reads back from it when it arrives in two chunks (`Exchange.client`)
+    match code.toNat?, unhex hm with
+    | some c, some m =>
+      let f := statusFrame (c % 5) m
+      let back := match client 0 1 400 (cut [f.length / 2] f) f.length with
+        | .status c' m' => s!"{c'}:{hexOfBytes m'}"
+        | .reply _ => "reply?"
+      (st, s!"frame {hexOfBytes f} back {back}")
+    | _, _ => (st, "bad-op")
+  | ["fail", code, hm] =>
+    -- a handler that answers with an error status: the whole exchange (`Exchange.exchange`: request framed, cut, reassembled,
+    -- checked, handler, `create_bad_request`, cut, reassembled, read by the client).  The request is the 12 byte archive of the
+    -- harness's `Fail` message as far as the model is concerned (its content is the handler's business: `run` ignores it).
+    match code.toNat?, unhex hm with
+    | some c, some m =>
+      let h : Handler := ⟨4, 4, fun _ => .error (c % 5, m)⟩
+      let req := mkFrame [0, 0, 0, 0, 0, 0, 0, 0]
+      match exchange (fun _ => some h) [47] 4 4 req [2] [5, 16383, 16383] with
+      | (.status c' m', [_]) => (st, s!"fail {c'} {hexOfBytes m'}")
+      | _ => (st, "fail model-refused")
+    | _, _ => (st, "bad-op")
+  | "rawframe" :: _seed :: _size :: _mut :: cuts :: declared :: rest =>
     -- a frame over the wire, in any chunks, under any announced length: a frame that is damaged or too short is refused and no
     -- handler runs on it (`checkFrame`); a frame that does not have the announced length never gets that far (the transport
     -- refuses the stream); nothing panics either way.  The bytes that were sent come from the harness (`frame=`).
@@ -103,7 +127,11 @@ def step (st : State) (toks : List String) : State × String :=
       match unhex (if h == "-" then "" else h) with
       | some bs =>
         let lie := declared != "-" && declared != "actual" && declared.toNat? != some bs.length
-        let fine := !lie && (checkFrameA 56 8 bs).isSome
+        -- the bytes go through the model's server: cut as the case says, reassembled by `toAligned`, checked, echo handler
+        let positions := if cuts == "-" then [] else (cuts.splitOn ",").filterMap (·.toNat?)
+        let echo : Handler := ⟨56, 8, fun b => .ok b⟩
+        let (resp, ran) := server (fun _ => some echo) [47] (cutAt positions bs) (declared.toNat?.getD bs.length)
+        let fine := !lie && resp.http == 200 && ran.length == 1 && ran == [bs.take (bs.length - 4)]
         (st, if fine then "rawframe echo runs=1 panics=0" else "rawframe refused runs=0 panics=0")
       | none => (st, "bad-op")
     | none => (st, "bad-op")
